@@ -4,26 +4,30 @@
 // It shares no code with pkg/config_parser and does not use ANTLR.
 //
 // Lexer (maximal munch; on a tie the earlier rule wins; rule order as below):
-//   ',' '{' '}' ':' '[' ']' '!' '(' ')' '->' '&&'
-//   WHITESPACE          : [ \t\r\n]+                       (not seen by the parser)
-//   COMMENT_BLOCK       : '/*' .*? '*/'                    (not seen by the parser)
-//   COMMENT_LINE_SHARP  : '#' .*? ([\r\n]+ | EOF)          (not seen by the parser)
-//   ID                  : [A-Za-z_] SAFE*
-//   NON_ID              : [*+\-./0-9\\^] SAFE*
-//   QUOTE_STRING        : '"' ('\\"' | .)*? '"'  |  '\'' ('\\\'' | .)*? '\''
-//   SAFE                : [A-Za-z_] | [*+\-./0-9\\^] | [!#$%=@]
+//
+//	',' '{' '}' ':' '[' ']' '!' '(' ')' '->' '&&'
+//	WHITESPACE          : [ \t\r\n]+                       (not seen by the parser)
+//	COMMENT_BLOCK       : '/*' .*? '*/'                    (not seen by the parser)
+//	COMMENT_LINE_SHARP  : '#' .*? ([\r\n]+ | EOF)          (not seen by the parser)
+//	ID                  : [A-Za-z_] SAFE*
+//	NON_ID              : [*+\-./0-9\\^] SAFE*
+//	QUOTE_STRING        : '"' ('\\"' | .)*? '"'  |  '\'' ('\\\'' | .)*? '\''
+//	SAFE                : [A-Za-z_] | [*+\-./0-9\\^] | [!#$%=@]
+//
 // Parser:
-//   start      : section* EOF
-//   section    : ID '{' item* '}'
-//   item       : rule | declaration | literal | section
-//   declaration: ID ':' (funcExpr | literal (',' literal)*) annotation?
-//   annotation : '[' paramList? ']'
-//   funcExpr   : function ('&&' function)*
-//   function   : '!'? ID '(' paramList? ')'
-//   paramList  : param (',' param)*
-//   param      : ID ':' literal | literal
-//   rule       : funcExpr '->' (ID | NON_ID | function)
-//   literal    : ID | NON_ID | QUOTE_STRING
+//
+//	start      : section* EOF
+//	section    : ID '{' item* '}'
+//	item       : rule | declaration | literal | section
+//	declaration: ID ':' (funcExpr | literal (',' literal)*) annotation?
+//	annotation : '[' paramList? ']'
+//	funcExpr   : function ('&&' function)*
+//	function   : '!'? ID '(' paramList? ')'
+//	paramList  : param (',' param)*
+//	param      : ID ':' literal | literal
+//	rule       : funcExpr '->' (ID | NON_ID | function)
+//	literal    : ID | NON_ID | QUOTE_STRING
+//
 // On top of the grammar the reader reports (as the production walker must) an error for an empty
 // parameter list "f()" and an empty annotation "[]": a function/annotation that spells no
 // parameter has no faithful representation in the result.
@@ -192,7 +196,7 @@ func refLex(text string) (visible []token, all []token, err error) {
 		if bestLen == 0 {
 			return nil, nil, fmt.Errorf("lex: no token at offset %d", cs[i].off)
 		}
-		tk := token{kind: bestKind, text: text[cs[i].off:offAt(i + bestLen)], pos: cs[i].off}
+		tk := token{kind: bestKind, text: text[cs[i].off:offAt(i+bestLen)], pos: cs[i].off}
 		all = append(all, tk)
 		if bestKind != tWS && bestKind != tCommentBlock && bestKind != tCommentLine {
 			visible = append(visible, tk)
